@@ -18,7 +18,7 @@ import warnings
 import xml.etree.ElementTree as ET
 from typing import Any, Dict, List, Optional
 
-from harness.common import VirtualTimeLoop, tok_str
+from harness.common import MicrosecondLoop, tok_str
 from vk.core import Case, Ctx
 
 GEN_MODULES: List[str] = ["C15"]
@@ -60,12 +60,7 @@ TRUSTED = ["C15: asyncio run-to-quiescence semantics and the µs-snapped virtual
 BASE_US = 1704067200_000000  # 2024-01-01T00:00:00Z
 
 
-class C15Loop(VirtualTimeLoop):
-    """virtual-time loop whose timer deadlines are snapped to whole microseconds, so that two timers
-    computed by different float routes for the same instant coincide (and are popped together)."""
-
-    def call_at(self, when, callback, *args, context=None):  # type: ignore[override]
-        return super().call_at(round(when * 1e6) / 1e6, callback, *args, context=context)
+C15Loop = MicrosecondLoop  # µs-snapped virtual-time loop (harness/common.py)
 
 
 def _make_vdt(loop):
